@@ -66,7 +66,8 @@ ASSUMPTIONS = [
     'return the faithful content of one of the pickle files',
 ]
 MIN_DISTINCT = {'quick': 250, 'thorough': 2500}
-CASE_TIMEOUT = 180
+CASE_TIMEOUT = 600  # generous: the machine is shared; a watchdog firing is inconclusive, never a verdict
+SHARD_TIMEOUT = {'quick': 3600, 'thorough': 4 * 3600}
 
 N_SYN = {'quick': 340, 'thorough': 3000}
 N_REAL = {'quick': 36, 'thorough': 200}
